@@ -125,4 +125,7 @@ def run(tier: str, seed: int, rep: Report, model: Model) -> dict:
         rep.count("dtype_sweep")
         if len(set(per.values())) != 1:
             rep.violation({"what": "a class gives different answers for the same (shared) dtype depending on the array library", "class": c, "dtype": d, "per_library": per})
+    fresh = {(t["cls"], t["lib"], t["dt"]): ("accept" if r.get("v") == "accept" else r.get("kind") or r.get("exn") or r.get("v"))
+             for t, r in zip(sweep, sres) if "v" in r}
+    c04.sequence_sweep(rep, fresh, rnd, {l: list(SHARED_DT) for l in libs}, "C15")
     return {"libraries": libs}
